@@ -167,7 +167,6 @@ import (
 	"bytes"
 	"fmt"
 	"go/ast"
-	"go/build"
 	"go/build/constraint"
 	"go/importer"
 	"go/parser"
@@ -179,6 +178,7 @@ import (
 	"sort"
 	"strconv"
 	"strings"
+	"veriftools/internal/srcset"
 
 	"veriftools/coqfmt"
 )
@@ -1549,24 +1549,12 @@ type entry struct {
 	body                     []string
 }
 
-// matchFile: is this file part of the package as the go tool builds it here (GOOS, GOARCH,
-// release tags, file name suffixes, //go:build and +build lines; no extra tags, so files
-// guarded by the `verif` tag are left out)?  go/build decides, the same way `go build` does.
-func matchFile(path string) bool {
-	ok, err := build.Default.MatchFile(filepath.Dir(path), filepath.Base(path))
-	if err != nil {
-		die("%s: %v", path, err)
-	}
-	return ok
-}
-
 func main() {
 	if len(os.Args) < 2 {
 		die("usage: io2coq <repo>")
 	}
 	repo := os.Args[1]
-	dir := filepath.Join(repo, "jen")
-	names, err := filepath.Glob(filepath.Join(dir, "*.go"))
+	names, err := srcset.Files(repo)
 	if err != nil {
 		die("%v", err)
 	}
@@ -1580,9 +1568,7 @@ func main() {
 		if err != nil {
 			die("%v", err)
 		}
-		if matchFile(n) {
-			files = append(files, f)
-		}
+		files = append(files, f)
 	}
 	info = &types.Info{Types: map[ast.Expr]types.TypeAndValue{}, Uses: map[*ast.Ident]types.Object{}, Defs: map[*ast.Ident]types.Object{}}
 	conf := types.Config{Importer: importer.ForCompiler(fset, "source", nil)}
